@@ -59,7 +59,10 @@ def run(chk):
 
     # ------------------------------------------------------------------ R2a / R3(reads)
     r2 = chk.rule("C01.R2a", "noreply truthy => no reader call is reachable; noreply falsy => no normal return after sendall without reading")
-    for fn in exch:
+    helpers = exchange.send_helpers(prog)
+    rr_fns = [f for f in exch if f.name not in helpers]
+    r2.floor("request/response functions", len(rr_fns), 3)
+    for fn in rr_fns:
         for cfg, outs, dom, interp in runs_by_fn[fn.qualname]:
             nr = cfg["noreply"]
             if nr is True:
@@ -92,7 +95,7 @@ def run(chk):
 
     # ------------------------------------------------------------------ R3 one reply per command
     r3 = chk.rule("C01.R3", "one reply is read per command sent, in order (paired appends / same collection / terminator-controlled return)")
-    for fn in exch:
+    for fn in rr_fns:
         check_reply_count(prog, fn, readers, rmeth, r3)
 
     # ------------------------------------------------------------------ R4 no bytes survive a call
@@ -139,7 +142,9 @@ def run(chk):
                 r5.expect(ok and len(direct) == 1, "recv site in %s" % f.qualname, "%s:recv-outside-_recv" % f.qualname, "%s calls .%s; the single receive site must be the EINTR-retrying helper" % (f.qualname, n.func.attr), fn=f, node=n)
             if isinstance(n, ast.Attribute) and n.attr == "sock" and not (f.cls is not None and f.cls.name == "Client"):
                 r5.fail("%s:touches-.sock" % f.qualname, "%s accesses .sock of a client" % f.qualname, fn=f, node=n)
-    r5.floor("send sites", n_send, 3)
+    n_helper_calls = sum(1 for f in prog.cls("Client").methods.values() for n in walk_no_nested(f.node) if isinstance(n, ast.Call) and isinstance(n.func, ast.Attribute) and is_self_attr(n.func) and n.func.attr in helpers)
+    r5.floor("send sites (sendall + send-helper calls)", n_send + n_helper_calls, 3)
+    r5.floor("sendall sites", n_send, 1)
     r5.floor("recv sites", n_recv, 1)
     chk.assume("Client.close does not raise ordinary exceptions (C06.R6)")
     chk.assume("the server answers each command with the number of reply lines the protocol defines")
@@ -207,7 +212,8 @@ def check_reply_count(prog, fn, readers, rmeth, r3):
         r3.fail("%s:read-loop-shape" % fn.qualname, "%s has %d loops containing reader calls (expected exactly one read loop)" % (fn.qualname, len(loops)), fn=fn)
         return
     loop, calls = loops[0]
-    sends = [n for n in walk_no_nested(fn.node) if isinstance(n, ast.Call) and isinstance(n.func, ast.Attribute) and n.func.attr == "sendall"]
+    helpers = exchange.send_helpers(prog)
+    sends = [n for n in walk_no_nested(fn.node) if isinstance(n, ast.Call) and isinstance(n.func, ast.Attribute) and (n.func.attr == "sendall" or (is_self_attr(n.func) and n.func.attr in helpers))]
     if len(sends) != 1:
         r3.fail("%s:sendall-count" % fn.qualname, "%s has %d sendall sites; one command batch per exchange is required" % (fn.qualname, len(sends)), fn=fn)
         return
